@@ -188,6 +188,23 @@ pub const COUNTER: Preset = &[
     (APPLY, 2),
 ];
 
+/// concurrent writes to the same list elements followed by splices and deletes of those elements
+pub const SEQ_CONFLICT: Preset = &[
+    (LIST_PUT, 22),
+    (SPLICE, 14),
+    (LIST_DELETE, 8),
+    (MERGE, 18),
+    (COMMIT, 8),
+    (LIST_INSERT, 5),
+    (LIST_INCREMENT, 3),
+    (SPLICE_TEXT, 6),
+    (TEXT_PUT, 6),
+    (SAVE_LOAD, 2),
+    (FORK, 1),
+    (RECORD_HEADS, 3),
+    (APPLY, 2),
+];
+
 /// text heavy
 pub const TEXT: Preset = &[
     (SPLICE_TEXT, 30),
